@@ -24,7 +24,11 @@ var NumericTexts = []string{"1", "2", "10", "9", "-3", "1.5", "2.25", "0", "3", 
 // numbers too large for a double: number() is +-Infinity (IEEE round to nearest), not NaN
 var HugeNumberTexts = []string{"1" + strings.Repeat("0", 309), "-" + strings.Repeat("9", 320) + ".5", " 17976931348623158" + strings.Repeat("0", 292) + " ", "17976931348623157" + strings.Repeat("0", 292)}
 
+// GoFloatSyntax: strings that strconv.ParseFloat accepts (or nearly) and XPath's Number does not
+var GoFloatSyntax = []string{"1_000", "-2_0", "1_0.5", "0x10", "0x1p-2", "1e5", "1E5", "Inf", "+Inf", "-inf", "infinity", "nan", "+5", "1.", "-.5", ".", "-", "1__0", "0b11", "0o7", "1.5e", "٣", "1 2"}
+
 func init() {
+	DefaultTexts = append(DefaultTexts, GoFloatSyntax...)
 	DefaultTexts = append(DefaultTexts, HugeNumberTexts[0], HugeNumberTexts[1])
 	NumericTexts = append(NumericTexts, HugeNumberTexts...)
 }
